@@ -5,7 +5,6 @@ import (
 	"flag"
 	"fmt"
 	"strings"
-	"sync"
 	"time"
 
 	"seata.apache.org/seata-go/pkg/datasource"
@@ -34,7 +33,7 @@ type DBFault struct {
 // lock, which run inline), faults come from the plan.
 type dbHook struct {
 	sim     *simkit.Sim
-	mu      sync.Mutex
+	mu      simkit.QuietMutex
 	faults  []DBFault
 	counts  map[string]int
 	perConn map[int]int
